@@ -93,10 +93,16 @@ func (h *simHist) cacheAction(t *rapid.T) error {
 			return fmt.Errorf("VERIF-INCONCLUSIVE: %v", err)
 		}
 		keep := rapid.IntRange(1, 4).Draw(t, "legacyKeepEvery")
-		first := h.firstOccurrences(int64(len(s.model)))
+		// a cache only ever holds entries of rounds whose checkpoint was published (cachePut comes last),
+		// so the legacy table is built from the published prefix of the committed leaves
+		limit := int64(0)
+		if pc, err := s.publishedNow(); err == nil {
+			limit = min(pc.Size, int64(len(s.model)))
+		}
+		first := h.firstOccurrences(limit)
 		must := map[string]simAck{}
 		n := 0
-		for i := int64(0); i < int64(len(s.model)); i++ {
+		for i := int64(0); i < limit; i++ {
 			e := s.model[i]
 			se := &simEntry{P: &PendingLogEntry{Certificate: e.Cert, IsPrecert: e.IsPrecert, IssuerKeyHash: e.IssuerKeyHash}}
 			k := se.dedupKey()
